@@ -323,32 +323,52 @@ class Machine(object):
     return D, via, args, kwargs
 
   def _count_crash_points(self, h, args, kwargs):
-    """Dry run of the same fit on a durable copy of the estimator and of its
-    arguments, counting the line events inside metric_learn: the number of
-    points at which the real call can be interrupted.  Leaves no trace in the
-    ambient RNG state."""
-    import random as pyrandom
-    st_np, st_py = np.random.get_state(), pyrandom.getstate()
-    eig = (world.EIGSH.calls, world.EIGSH.forced)
-    n = 0
-    try:
-      est2 = pickle.loads(pickle.dumps(h.est))
-      a2, k2 = copy.deepcopy(args), copy.deepcopy(kwargs)
-      with world.observed(), world.LineInterrupter() as li0:
+    """Dry run of the same fit, counting the line events inside metric_learn:
+    the points at which the real call can be interrupted.  The dry run happens
+    in a *forked child process* on copies of the estimator and its arguments,
+    so that it leaves no trace whatsoever in this process - neither in the
+    ambient RNG state nor in module-level state of the library or of its
+    dependencies (a cache filled by the dry run would hide exactly the defects
+    crash points are there to find)."""
+    rfd, wfd = os.pipe()
+    pid = os.fork()
+    if pid == 0:
+      code = 0
+      try:
+        os.close(rfd)
+        import signal
+        signal.setitimer(signal.ITIMER_PROF, 0)
+        signal.alarm(120)
+        n, funcs = 0, []
         try:
-          est2.fit(*a2, **k2)
-        except (Exception, world.LineInterrupter.StopCount):
-          pass
-      n = li0.n
-      if n >= world.LineInterrupter.CAP:
-        self.cov["crash_points_capped"] += 1
+          with world.observed(), world.LineInterrupter() as li0:
+            try:
+              h.est.fit(*args, **kwargs)
+            except (Exception, world.LineInterrupter.StopCount):
+              pass
+          n = li0.n
+          funcs = list(li0.by_func.values())
+        except BaseException:
+          n, funcs = 0, []
+        with os.fdopen(wfd, "wb") as f:
+          pickle.dump((n, funcs), f, protocol=4)
+      except BaseException:
+        code = 1
+      finally:
+        os._exit(code)
+    os.close(wfd)
+    n, funcs = 0, []
+    try:
+      with os.fdopen(rfd, "rb") as f:
+        data = f.read()
+      os.waitpid(pid, 0)
+      if data:
+        n, funcs = pickle.loads(data)
     except Exception:
-      n = 0
-    finally:
-      np.random.set_state(st_np)
-      pyrandom.setstate(st_py)
-      world.EIGSH.calls, world.EIGSH.forced = eig
-    return n
+      n, funcs = 0, []
+    if n >= world.LineInterrupter.CAP:
+      self.cov["crash_points_capped"] += 1
+    return n, funcs
 
   def op_fit(self, op, ev, live):
     h = self.handles.get(op["h"])
@@ -367,8 +387,14 @@ class Machine(object):
     intr = op.get("interrupt")
     li = None
     if intr:
-      n_points = self._count_crash_points(h, args, kwargs)
+      n_points, funcs = self._count_crash_points(h, args, kwargs)
       at = min(int(float(intr.get("frac", 0.5)) * n_points), max(n_points - 1, 0))
+      if intr.get("func") is not None and funcs:
+        # stratified by function: first a function the call passes through, then a
+        # line event inside it - short phases get the same share as long loops
+        lst = funcs[min(int(float(intr["func"]) * len(funcs)), len(funcs) - 1)]
+        at = lst[min(int(float(intr.get("frac", 0.5)) * len(lst)), len(lst) - 1)]
+        self.cov["interrupts_by_function"] += 1
       li = world.LineInterrupter(at=at, exc=intr.get("exc", "KeyboardInterrupt"))
     with world.DrawObserver() as obs, world.GlassoSeam() as gs, world.ConvertObserver() as co:
       if li is not None:
